@@ -25,6 +25,12 @@ for path in sys.argv[1:]:
                     "representable (DESIGN.md 7): " + "; ".join(v["clauses"]))
             out[(v["property"], v["key"])] = {"status": "known", "property": "C10", "key": v["key"], "what": what, "clauses": v["clauses"]}
             continue
+        if v["property"] == "C10" and ":2^-40:" in v["key"] and all(c.startswith("C10 scaled-2^-40: f32-result!=f64-result") or c.startswith("C10 scaled-2^-40: f32-panics-where-f64-returns") for c in v["clauses"]):
+            what = ("N4 exponent range: with every coordinate multiplied by 2^-40 (exactly representable in f32) the squared cross product of two edges "
+                    "underflows to zero in f32, intersection_impl takes crossing or touching edges for parallel ones, and the f32 result differs from the "
+                    "f64 result or connect_edges panics with an index out of bounds (DESIGN.md 0.6): " + "; ".join(v["clauses"]))
+            out[(v["property"], v["key"])] = {"status": "known", "property": "C10", "key": v["key"], "what": what, "clauses": v["clauses"]}
+            continue
         if fam not in ("L2i", "L2s", "L2i21", "L3i"):
             print("NOT ELIGIBLE:", v["key"], v["clauses"], file=sys.stderr)
             continue
